@@ -1867,4 +1867,18 @@ theorem no_wait_cycle_ranked' {idx ord : Nat → Nat} {progs : List (List (List 
   obtain ⟨ci, _, hi, _⟩ := waitsFor_callers him
   have := path_rank_lt hord hI hHs hp m ci ci hi hi him
   omega
+
+theorem semStep_balanced (p : Nat) (r : Bool × Bool × Bool) (hp : 1 ≤ p) : semStep p r = some p := by
+  obtain ⟨a, b, c⟩ := r
+  have h := semaphore_balanced' a b c
+  simp only [semStep]
+  split
+  · congr 1; omega
+  · omega
+
+theorem semaphore_sequence_balanced' (p : Nat) (hp : 1 ≤ p) : ∀ rs, semRun p rs = some p := by
+  intro rs
+  induction rs with
+  | nil => rfl
+  | cons r rs ih => simp [semRun, semStep_balanced p r hp, ih]
 end Coba.C19
